@@ -97,3 +97,183 @@
         #[verifier::external_body]
         fn zvt_deserialize(bytes: &[u8]) -> (r: zvt_builder::ZVTResult<(Self, &[u8])>) { unimplemented!() }
     }
+    impl zvt_builder::ZvtSerializer for StatusEnquiry {
+        /// identity of the packet type (position in the frozen reply table), so that "which type does this variant
+        /// carry" is an obligation instead of a type error
+        open spec fn tid() -> int { 11 }
+        uninterp spec fn zd_ok(b: Seq<u8>, v: Self) -> bool;
+        uninterp spec fn zd_defined(b: Seq<u8>) -> bool;
+        #[verifier::external_body]
+        fn zvt_deserialize(bytes: &[u8]) -> (r: zvt_builder::ZVTResult<(Self, &[u8])>) { unimplemented!() }
+    }
+    impl zvt_builder::ZvtSerializer for Registration {
+        /// identity of the packet type (position in the frozen reply table), so that "which type does this variant
+        /// carry" is an obligation instead of a type error
+        open spec fn tid() -> int { 12 }
+        uninterp spec fn zd_ok(b: Seq<u8>, v: Self) -> bool;
+        uninterp spec fn zd_defined(b: Seq<u8>) -> bool;
+        #[verifier::external_body]
+        fn zvt_deserialize(bytes: &[u8]) -> (r: zvt_builder::ZVTResult<(Self, &[u8])>) { unimplemented!() }
+    }
+    impl zvt_builder::ZvtSerializer for ReceiptPrintoutCompletion {
+        /// identity of the packet type (position in the frozen reply table), so that "which type does this variant
+        /// carry" is an obligation instead of a type error
+        open spec fn tid() -> int { 13 }
+        uninterp spec fn zd_ok(b: Seq<u8>, v: Self) -> bool;
+        uninterp spec fn zd_defined(b: Seq<u8>) -> bool;
+        #[verifier::external_body]
+        fn zvt_deserialize(bytes: &[u8]) -> (r: zvt_builder::ZVTResult<(Self, &[u8])>) { unimplemented!() }
+    }
+    impl zvt_builder::ZvtSerializer for ResetTerminal {
+        /// identity of the packet type (position in the frozen reply table), so that "which type does this variant
+        /// carry" is an obligation instead of a type error
+        open spec fn tid() -> int { 14 }
+        uninterp spec fn zd_ok(b: Seq<u8>, v: Self) -> bool;
+        uninterp spec fn zd_defined(b: Seq<u8>) -> bool;
+        #[verifier::external_body]
+        fn zvt_deserialize(bytes: &[u8]) -> (r: zvt_builder::ZVTResult<(Self, &[u8])>) { unimplemented!() }
+    }
+    impl zvt_builder::ZvtSerializer for PrintSystemConfiguration {
+        /// identity of the packet type (position in the frozen reply table), so that "which type does this variant
+        /// carry" is an obligation instead of a type error
+        open spec fn tid() -> int { 15 }
+        uninterp spec fn zd_ok(b: Seq<u8>, v: Self) -> bool;
+        uninterp spec fn zd_defined(b: Seq<u8>) -> bool;
+        #[verifier::external_body]
+        fn zvt_deserialize(bytes: &[u8]) -> (r: zvt_builder::ZVTResult<(Self, &[u8])>) { unimplemented!() }
+    }
+    impl zvt_builder::ZvtSerializer for SetTerminalId {
+        /// identity of the packet type (position in the frozen reply table), so that "which type does this variant
+        /// carry" is an obligation instead of a type error
+        open spec fn tid() -> int { 16 }
+        uninterp spec fn zd_ok(b: Seq<u8>, v: Self) -> bool;
+        uninterp spec fn zd_defined(b: Seq<u8>) -> bool;
+        #[verifier::external_body]
+        fn zvt_deserialize(bytes: &[u8]) -> (r: zvt_builder::ZVTResult<(Self, &[u8])>) { unimplemented!() }
+    }
+    impl zvt_builder::ZvtSerializer for ReservationAbort {
+        /// identity of the packet type (position in the frozen reply table), so that "which type does this variant
+        /// carry" is an obligation instead of a type error
+        open spec fn tid() -> int { 17 }
+        uninterp spec fn zd_ok(b: Seq<u8>, v: Self) -> bool;
+        uninterp spec fn zd_defined(b: Seq<u8>) -> bool;
+        #[verifier::external_body]
+        fn zvt_deserialize(bytes: &[u8]) -> (r: zvt_builder::ZVTResult<(Self, &[u8])>) { unimplemented!() }
+    }
+    impl zvt_builder::ZvtSerializer for Authorization {
+        /// identity of the packet type (position in the frozen reply table), so that "which type does this variant
+        /// carry" is an obligation instead of a type error
+        open spec fn tid() -> int { 18 }
+        uninterp spec fn zd_ok(b: Seq<u8>, v: Self) -> bool;
+        uninterp spec fn zd_defined(b: Seq<u8>) -> bool;
+        #[verifier::external_body]
+        fn zvt_deserialize(bytes: &[u8]) -> (r: zvt_builder::ZVTResult<(Self, &[u8])>) { unimplemented!() }
+    }
+    impl zvt_builder::ZvtSerializer for Reservation {
+        /// identity of the packet type (position in the frozen reply table), so that "which type does this variant
+        /// carry" is an obligation instead of a type error
+        open spec fn tid() -> int { 19 }
+        uninterp spec fn zd_ok(b: Seq<u8>, v: Self) -> bool;
+        uninterp spec fn zd_defined(b: Seq<u8>) -> bool;
+        #[verifier::external_body]
+        fn zvt_deserialize(bytes: &[u8]) -> (r: zvt_builder::ZVTResult<(Self, &[u8])>) { unimplemented!() }
+    }
+    impl zvt_builder::ZvtSerializer for PartialReversal {
+        /// identity of the packet type (position in the frozen reply table), so that "which type does this variant
+        /// carry" is an obligation instead of a type error
+        open spec fn tid() -> int { 20 }
+        uninterp spec fn zd_ok(b: Seq<u8>, v: Self) -> bool;
+        uninterp spec fn zd_defined(b: Seq<u8>) -> bool;
+        #[verifier::external_body]
+        fn zvt_deserialize(bytes: &[u8]) -> (r: zvt_builder::ZVTResult<(Self, &[u8])>) { unimplemented!() }
+    }
+    impl zvt_builder::ZvtSerializer for PreAuthReversal {
+        /// identity of the packet type (position in the frozen reply table), so that "which type does this variant
+        /// carry" is an obligation instead of a type error
+        open spec fn tid() -> int { 21 }
+        uninterp spec fn zd_ok(b: Seq<u8>, v: Self) -> bool;
+        uninterp spec fn zd_defined(b: Seq<u8>) -> bool;
+        #[verifier::external_body]
+        fn zvt_deserialize(bytes: &[u8]) -> (r: zvt_builder::ZVTResult<(Self, &[u8])>) { unimplemented!() }
+    }
+    impl zvt_builder::ZvtSerializer for EndOfDay {
+        /// identity of the packet type (position in the frozen reply table), so that "which type does this variant
+        /// carry" is an obligation instead of a type error
+        open spec fn tid() -> int { 22 }
+        uninterp spec fn zd_ok(b: Seq<u8>, v: Self) -> bool;
+        uninterp spec fn zd_defined(b: Seq<u8>) -> bool;
+        #[verifier::external_body]
+        fn zvt_deserialize(bytes: &[u8]) -> (r: zvt_builder::ZVTResult<(Self, &[u8])>) { unimplemented!() }
+    }
+    impl zvt_builder::ZvtSerializer for Diagnosis {
+        /// identity of the packet type (position in the frozen reply table), so that "which type does this variant
+        /// carry" is an obligation instead of a type error
+        open spec fn tid() -> int { 23 }
+        uninterp spec fn zd_ok(b: Seq<u8>, v: Self) -> bool;
+        uninterp spec fn zd_defined(b: Seq<u8>) -> bool;
+        #[verifier::external_body]
+        fn zvt_deserialize(bytes: &[u8]) -> (r: zvt_builder::ZVTResult<(Self, &[u8])>) { unimplemented!() }
+    }
+    impl zvt_builder::ZvtSerializer for Initialization {
+        /// identity of the packet type (position in the frozen reply table), so that "which type does this variant
+        /// carry" is an obligation instead of a type error
+        open spec fn tid() -> int { 24 }
+        uninterp spec fn zd_ok(b: Seq<u8>, v: Self) -> bool;
+        uninterp spec fn zd_defined(b: Seq<u8>) -> bool;
+        #[verifier::external_body]
+        fn zvt_deserialize(bytes: &[u8]) -> (r: zvt_builder::ZVTResult<(Self, &[u8])>) { unimplemented!() }
+    }
+    impl zvt_builder::ZvtSerializer for ReadCard {
+        /// identity of the packet type (position in the frozen reply table), so that "which type does this variant
+        /// carry" is an obligation instead of a type error
+        open spec fn tid() -> int { 25 }
+        uninterp spec fn zd_ok(b: Seq<u8>, v: Self) -> bool;
+        uninterp spec fn zd_defined(b: Seq<u8>) -> bool;
+        #[verifier::external_body]
+        fn zvt_deserialize(bytes: &[u8]) -> (r: zvt_builder::ZVTResult<(Self, &[u8])>) { unimplemented!() }
+    }
+    impl zvt_builder::ZvtSerializer for SelectLanguage {
+        /// identity of the packet type (position in the frozen reply table), so that "which type does this variant
+        /// carry" is an obligation instead of a type error
+        open spec fn tid() -> int { 26 }
+        uninterp spec fn zd_ok(b: Seq<u8>, v: Self) -> bool;
+        uninterp spec fn zd_defined(b: Seq<u8>) -> bool;
+        #[verifier::external_body]
+        fn zvt_deserialize(bytes: &[u8]) -> (r: zvt_builder::ZVTResult<(Self, &[u8])>) { unimplemented!() }
+    }
+    impl zvt_builder::ZvtSerializer for WriteFile {
+        /// identity of the packet type (position in the frozen reply table), so that "which type does this variant
+        /// carry" is an obligation instead of a type error
+        open spec fn tid() -> int { 27 }
+        uninterp spec fn zd_ok(b: Seq<u8>, v: Self) -> bool;
+        uninterp spec fn zd_defined(b: Seq<u8>) -> bool;
+        #[verifier::external_body]
+        fn zvt_deserialize(bytes: &[u8]) -> (r: zvt_builder::ZVTResult<(Self, &[u8])>) { unimplemented!() }
+    }
+    impl zvt_builder::ZvtSerializer for ChangeConfiguration {
+        /// identity of the packet type (position in the frozen reply table), so that "which type does this variant
+        /// carry" is an obligation instead of a type error
+        open spec fn tid() -> int { 28 }
+        uninterp spec fn zd_ok(b: Seq<u8>, v: Self) -> bool;
+        uninterp spec fn zd_defined(b: Seq<u8>) -> bool;
+        #[verifier::external_body]
+        fn zvt_deserialize(bytes: &[u8]) -> (r: zvt_builder::ZVTResult<(Self, &[u8])>) { unimplemented!() }
+    }
+    impl zvt_builder::ZvtSerializer for CVendFunctions {
+        /// identity of the packet type (position in the frozen reply table), so that "which type does this variant
+        /// carry" is an obligation instead of a type error
+        open spec fn tid() -> int { 29 }
+        uninterp spec fn zd_ok(b: Seq<u8>, v: Self) -> bool;
+        uninterp spec fn zd_defined(b: Seq<u8>) -> bool;
+        #[verifier::external_body]
+        fn zvt_deserialize(bytes: &[u8]) -> (r: zvt_builder::ZVTResult<(Self, &[u8])>) { unimplemented!() }
+    }
+    impl zvt_builder::ZvtSerializer for WriteData {
+        /// identity of the packet type (position in the frozen reply table), so that "which type does this variant
+        /// carry" is an obligation instead of a type error
+        open spec fn tid() -> int { 30 }
+        uninterp spec fn zd_ok(b: Seq<u8>, v: Self) -> bool;
+        uninterp spec fn zd_defined(b: Seq<u8>) -> bool;
+        #[verifier::external_body]
+        fn zvt_deserialize(bytes: &[u8]) -> (r: zvt_builder::ZVTResult<(Self, &[u8])>) { unimplemented!() }
+    }
